@@ -8,7 +8,7 @@
     Lockers only), unless a theorem says it needs less. *)
 From Coq Require Import List Arith Bool NArith Lia.
 From GL Require Import model.LockLTS proofs.C01_Exclusion proofs.C01_Tokens proofs.C01_Versions
-  proofs.C04_Residue proofs.C04_Attempts.
+  proofs.C04_Residue proofs.C04_Attempts proofs.C04_Ranking.
 Import ListNotations.
 
 (** * No residue at quiescence
@@ -122,19 +122,15 @@ Theorem C04_wakeup_persistent : forall lp tr s t L k v l s',
 Proof. exact wakeup_persistent. Qed.
 Print Assumptions C04_wakeup_persistent.
 
-(** * Hand-off reaches everyone - PARTIAL
+(** * Hand-off reaches everyone
 
-    Full statement (DESIGN 5.4, not proved): with n threads still to be served and nobody
-    cancelling, every maximal run of internal steps from a state without holder makes one of them
-    a holder within a bounded number of internal steps (ranking on threads not yet served, then
-    pcs).  What is proved instead is the safety core of that argument, for every reachable state:
+    The safety core first, for every reachable state:
     (a) if work remains and nobody holds, some internal step is enabled ([C04_no_deadlock]);
     (b) a thread outside the two waits is always enabled; (c) the two waits are enabled exactly
     when token / record say so; (d) an enabled storage waiter stays enabled until it moves.
-    Missing: the termination measure showing that internal steps cannot go on forever without
-    producing a holder (the retry loop Create -> ErrExist -> Wait -> Create repeats only when the
-    record changed in between, which needs a progress measure over the whole thread population). *)
-Theorem C04_handoff_reaches_everyone_partial : forall lp tr s,
+    The ranking statement that turns this into "some waiting caller acquires, and so on" is
+    [C04_handoff_reaches_everyone] below. *)
+Theorem C04_handoff_safety_core : forall lp tr s,
   run (init lp) tr = Some s -> no_faults lp tr -> wf_programs lp tr ->
   (* (a) *)
   ((forall l, internal l = true -> step s l = None) -> (forall L, held (lk s L) = None) ->
@@ -165,7 +161,81 @@ Proof.
   - eapply wakeup_persistent; eauto.
   - eapply wakeup_persistent; eauto.
 Qed.
-Print Assumptions C04_handoff_reaches_everyone_partial.
+Print Assumptions C04_handoff_safety_core.
+
+(** The ranking statement (DESIGN 5.4).  From a reachable state in which nobody holds the lock,
+    consider runs of INTERNAL steps (the steps the implementation takes by itself: no new call,
+    no cancellation, no shutdown, no fault, no renewal, no expiry) along which nobody becomes a
+    holder ([quiet_run]).
+    (1) Such a run has at most [bound] steps - the bound is the explicit measure [rank] over the
+        finitely many threads that are inside a call ([C04_handoff_rank_decreases]): the retry
+        loop Create -> ErrExist -> WaitForVersionChange -> Create of a waiter goes round only when
+        the record changed, and without a new holder the record changes only by the Delete of an
+        Unlock already in progress.
+    (2) If such a run is maximal (no internal step is enabled after it) every call has returned.
+    (3) As long as some blocking attempt (Lock / LockWithCtx) that is not cancelled is under way on
+        a live provider ([wants]) such a run is NOT maximal.
+    Hence: every maximal internal run from a state without holder in which somebody still wants the
+    lock makes somebody a holder within [bound] + 1 internal steps; the theorem applies again at the
+    next state without holder (after that holder's Unlock), and so on until nobody wants the lock.
+    ("~ stuck" rather than "exists an enabled label": the model has infinitely many threads and
+    Coq no excluded middle; the enabled labels are characterised exactly in the safety core above.) *)
+Theorem C04_handoff_reaches_everyone : forall lp tr0 s,
+  run (init lp) tr0 = Some s -> no_faults lp tr0 -> wf_programs lp tr0 -> holderless s ->
+  exists bound,
+    (forall tr, quiet_run s tr -> length tr <= bound) /\
+    (forall tr s', quiet_run s tr -> run s tr = Some s' -> stuck s' -> forall t, pc_of s' t = Idle) /\
+    (forall tr s' w, wants s w -> quiet_run s tr -> run s tr = Some s' -> ~ stuck s').
+Proof. exact handoff_reaches_everyone. Qed.
+Print Assumptions C04_handoff_reaches_everyone.
+
+(** the measure itself: every internal step after which nobody holds strictly decreases [rank ts]
+    ([ts]: any duplicate-free list containing the threads that are inside a call; needs only the
+    two small invariants [kinv]: Lock() has no context to cancel, TryLock never waits) *)
+Theorem C04_handoff_rank_decreases : forall ts s l s',
+  NoDup ts -> covers ts s -> kinv s ->
+  internal l = true -> step s l = Some s' -> holderless s' ->
+  rank ts s' < rank ts s /\ covers ts s'.
+Proof. exact rank_step. Qed.
+Print Assumptions C04_handoff_rank_decreases.
+
+(** a blocking attempt that is not cancelled, on a live provider, is still under way after every
+    internal run along which nobody became a holder: it returns only as a holder *)
+Theorem C04_blocking_attempt_stays : forall lp tr0 s tr s' w,
+  run (init lp) tr0 = Some s -> wf_programs lp tr0 ->
+  wants s w -> quiet_run s tr -> run s tr = Some s' -> wants s' w.
+Proof.
+  intros lp tr0 s tr s' w Hr HW. apply wants_quiet. eapply tinv_reachable; eauto.
+Qed.
+Print Assumptions C04_blocking_attempt_stays.
+
+(** non-vacuity: goroutine 1 holds through Locker 1, goroutine 0 is parked in the storage wait of
+    Locker 0 (Lock), then Unlock is invoked: nobody holds, 0 still wants the lock; the five internal
+    steps of the hand-off are a quiet run (rank 5 + 3 + 3*1*2 = 14 bounds it), and the next
+    internal step - the Create of goroutine 0 - makes it the holder *)
+Definition C04_ex_handoff : list label :=
+  [Invoke 1 (OLock 1); TakeToken 1; CheckCtx 1; StCreate 1 FOk; Return 1 RUnit;
+   Invoke 0 (OLock 0); TakeToken 0; CheckCtx 0; StCreate 0 FOk; Invoke 1 (OUnlock 1)].
+Definition C04_ex_quiet : list label :=
+  [StDelete 1 FOk; PutToken 1; Return 1 RUnit; StWaitRet 0 WChanged; CheckCtx 0].
+
+Example C04_ex_handoff_ranked :
+  exists s, run (init (fun _ => 0)) C04_ex_handoff = Some s /\
+    holderless s /\ wants s 0 /\ covers [0; 1] s /\ rank [0; 1] s = 14 /\
+    quiet_run s C04_ex_quiet /\
+    exists s1 s2, run s C04_ex_quiet = Some s1 /\ step s1 (StCreate 0 FOk) = Some s2 /\
+                  held (lk s2 0) <> None.
+Proof.
+  destruct (run (init (fun _ => 0)) C04_ex_handoff) as [s|] eqn:Hr; [|vm_compute in Hr; discriminate].
+  exists s. split; [reflexivity|]. vm_compute in Hr. injection Hr as <-.
+  split; [|split; [|split; [|split; [|split]]]].
+  - intros [|[|L]]; reflexivity.
+  - exists 0, KLock. repeat split; try discriminate. right. right. right. eexists. reflexivity.
+  - intros [|[|t]] Hn; [elim Hn; left; reflexivity | elim Hn; right; left; reflexivity | reflexivity].
+  - vm_compute. reflexivity.
+  - vm_compute. repeat split; try reflexivity; intros [|[|L]]; reflexivity.
+  - eexists. eexists. split; [vm_compute; reflexivity|]. split; [vm_compute; reflexivity|]. vm_compute. discriminate.
+Qed.
 
 (** * Cancellation and failed TryLock *)
 
